@@ -87,6 +87,11 @@ const c13Root = `{"$id":"http://h/strict.json","$dynamicAnchor":"node","$ref":"t
  "patternProperties":{"^x-":{"type":"string","pattern":"^[a-z]+$","minLength":1}},
  "properties":{"data":{"anyOf":[{"type":"integer","minimum":0},{"type":"array","uniqueItems":true,"prefixItems":[{"const":1}],"unevaluatedItems":{"type":"string"}}]},
   "opt":{"type":"object","required":["a","b"],"dependentRequired":{"a":["b"]},"propertyNames":{"pattern":"^[a-z]$"},"properties":{"a":{"default":1},"b":{"default":"x"},"c":{"properties":{"d":{"default":[1]}}}}}}}`
+
+// required lists of 3 and 6 names (JSON-decoded: spare capacity behind them) next to dependentRequired with different lists
+const c13Dep = `{"properties":{"dep":{"required":["r1","r2","r3"],"dependentRequired":{"t1":["p","r1"],"t2":["q"],"t3":["p","q","z"]},
+  "properties":{"deep":{"required":["a","b","c","d","e","f"],"dependentRequired":{"x":["y"],"y":["x","w"]}}}}}}`
+const c13Dep7 = `{"$schema":"http://json-schema.org/draft-07/schema#","required":["r1","r2","r3"],"dependencies":{"t1":["p"],"t2":["q","r2"],"t3":{"required":["s"]}}}`
 const c13D7 = `{"$schema":"http://json-schema.org/draft-07/schema#","definitions":{"p":{"$id":"#pos","type":"integer","minimum":0}},"items":[{"$ref":"#pos"},{"type":"string"}],"additionalItems":{"$ref":"#pos","maximum":-1},"dependencies":{"a":["b"],"c":{"required":["d"]}}}`
 
 func (c13) Run(c *fw.Case) {
@@ -128,6 +133,23 @@ func (c13) Run(c *fw.Case) {
 	if err != nil {
 		panic("c13 draft-07 schema: " + err.Error())
 	}
+	var depS, dep7S jsonschema.Schema
+	json.Unmarshal([]byte(c13Dep), &depS)
+	json.Unmarshal([]byte(c13Dep7), &dep7S)
+	rsDep, err := depS.Resolve(nil)
+	if err != nil {
+		panic("c13 dep schema: " + err.Error())
+	}
+	rsDep7, err := dep7S.Resolve(nil)
+	if err != nil {
+		panic("c13 dep7 schema: " + err.Error())
+	}
+	depInsts := []any{
+		gen.Canonical(`{"dep":{"r1":1,"r2":1,"r3":1,"t1":1,"p":1}}`), gen.Canonical(`{"dep":{"r1":1,"r2":1,"r3":1,"t2":1,"q":1}}`), gen.Canonical(`{"dep":{"r1":1,"r2":1,"r3":1,"t3":1,"p":1,"q":1,"z":1}}`),
+		gen.Canonical(`{"dep":{"r1":1,"r2":1,"r3":1,"t1":1}}`), gen.Canonical(`{"dep":{"r1":1,"r2":1,"r3":1}}`), gen.Canonical(`{"dep":{"r1":1,"r2":1,"r3":1,"deep":{"a":1,"b":1,"c":1,"d":1,"e":1,"f":1,"x":1,"y":1,"w":1}}}`),
+		gen.Canonical(`{"dep":{"r1":1,"r2":1,"r3":1,"deep":{"a":1,"b":1,"c":1,"d":1,"e":1,"f":1,"x":1,"y":1}}}`), gen.Canonical(`{"dep":{"r1":1,"r2":1,"r3":1,"deep":{"a":1,"b":1,"c":1,"d":1,"e":1,"f":1,"x":1}}}`),
+	}
+	dep7Insts := []any{gen.Canonical(`{"r1":1,"r2":1,"r3":1,"t1":1,"p":1}`), gen.Canonical(`{"r1":1,"r2":1,"r3":1,"t2":1,"q":1}`), gen.Canonical(`{"r1":1,"r2":1,"r3":1,"t3":1,"s":1}`), gen.Canonical(`{"r1":1,"r2":1,"r3":1,"t1":1}`), gen.Canonical(`{"r1":1,"r2":1,"r3":1}`)}
 	// a generated schema as third shared Resolved
 	gdoc := gen.Schema(r, gen.SchemaOpts{Draft: gen.D2020, MaxDepth: 3, Refs: true, Uneval: true, Focus: "object", Names: gen.Names[:4]})
 	gtext := gen.Text(gdoc)
@@ -186,7 +208,11 @@ func (c13) Run(c *fw.Case) {
 		w := r.IntN(10)
 		switch {
 		case w < 4 || (mix == 0 && w < 7): // W1
-			switch r.IntN(4) {
+			switch r.IntN(6) {
+			case 4:
+				add("W1-dep", verdict(rsDep, gen.Pick(r, depInsts)))
+			case 5:
+				add("W1-dep7", verdict(rsDep7, gen.Pick(r, dep7Insts)))
 			case 0:
 				add("W1-d7", verdict(rs7, gen.Pick(r, d7insts)))
 			case 1:
